@@ -97,6 +97,14 @@ def build_corpus(tier, rng):
         it = Item("E", [Variant("DarkBlack", "tuple", [Field("u8")]), Variant("DimGray", "unit"), Variant("Fuchsia", "named", [Field("i32", "a")])],
                   dmetas=[DM("derive", paths=["strum::EnumString", "strum::Display", "strum::VariantNames", "strum::EnumIter"])] + pts)
         items.append(("passthrough", it))
+    # ... also when they are written BEFORE the derive(..) entry (the order of the entries means nothing)
+    for j in range(3):
+        pts = [pass_through([EM("sall", "kebab-case")])] if j < 2 else [pass_through([EM("prefix", "k/")]), pass_through([EM("sall", "snake_case")])]
+        dms = pts + [DM("derive", paths=["strum::EnumString", "strum::Display", "strum::VariantNames", "strum::EnumIter"])]
+        if j == 1:
+            dms = [dms[0], DM("name", "Shade"), dms[1]]
+        it = Item("E", [Variant("DarkBlack", "tuple", [Field("u8")]), Variant("DimGray", "unit"), Variant("Fuchsia", "named", [Field("i32", "a")])], dmetas=dms)
+        items.append(("passthrough-first", it))
     # several hints, in one #[repr] attribute or in several: ALL of them belong to the generated enum
     for rp, form in (("u8", ["u8", "align(4)"]), ("u8", ["align(4)", "u8"]), ("i16", ["i16, align(8)"]), ("u32", ["align(2)", "u32"]), ("i8", ["i8", "align(2)"])):
         it = Item("E", [Variant("A", "tuple", [Field("u8")], discr=3), Variant("B", "unit"), Variant("C", "named", [Field("i32", "a")], discr=(-2 if rp[0] == "i" else 9)), Variant("D", "unit")],
